@@ -185,6 +185,11 @@ def safe_callable_names(root: ast.Module) -> Collection[str]:
         function_defs = [node for node in function_defs if node.name not in safe_callables]
 
     for node in core.walk(root, ast.ClassDef):
+        if node.bases or node.keywords or node.decorator_list:
+            # Instantiation runs constructors that are inherited from a base class, or
+            # injected by a metaclass or decorator, which have not been analysed.
+            continue
+
         constructors = {
             child
             for child in node.body
